@@ -25,6 +25,12 @@ func sequential(r *lib.Report, tier string) (int64, int64, []interface{}) {
 	s2, t2 := adapters(r)
 	s3, t3 := patterns(r, tier, &samples)
 	states, trans = s1+s2+s3, t1+t2+t3
+	// the adapters and the pattern lists once more in the same process (answers must not depend on what
+	// was evaluated before, e.g. through a cache of compiled patterns or a recycled buffer)
+	var again []interface{}
+	_, t4 := adapters(r)
+	_, t5 := patterns(r, tier, &again)
+	trans += t4 + t5
 	return states, trans, samples
 }
 
